@@ -73,6 +73,8 @@ RING = {
     "core::num::overflowing_sub": "osub",
     "core::num::overflowing_add": "oadd",
     "core::num::saturating_sub": None,
+    "core::num::checked_sub": "csub",
+    "core::num::checked_add": "cadd",
 }
 
 
@@ -360,6 +362,9 @@ class PathExec:
                 res = ("tup", (args[0] - args[1], ("ovf", "Sub", args[0], args[1])))
             elif kind == "oadd":
                 res = ("tup", (args[0] + args[1], ("ovf", "Add", args[0], args[1])))
+            elif kind in ("csub", "cadd"):
+                # the payload of the Some answer (on the None edge nothing reads it)
+                res = ("agg", "core::option::Option", "Some", (args[0] - args[1] if kind == "csub" else args[0] + args[1],))
             elif kind == "mul":
                 if args[0].is_const():
                     res = args[1].scale(args[0].c)
@@ -368,6 +373,8 @@ class PathExec:
         summ = self.summaries.get(cn)
         if res is None and summ is not None:
             res = summ(self, st, bb, args)
+        if res is None:
+            res = self.inline_accessor(st, cn, args)
         if res is None:
             res = Aff.sym("call@%d" % bb)
             # unknown callee: cells reachable through &mut arguments are havocked
@@ -380,10 +387,75 @@ class PathExec:
                         mut = ty.startswith("&mut") or ty.startswith("*mut")
                     if mut and not cn.startswith(PURE_PREFIXES):
                         self.havoc_cell(st, a[1], bb)
+                elif isinstance(a, Aff) and len(a.t) == 1 and a.c == 0 and list(a.t.values()) == [1] and list(a.t)[0].startswith("arg") and list(a.t)[0][3:].isdigit():
+                    # the function's own `&mut` reference parameter handed on (`self.request_more()`): everything behind it may change
+                    p = ao.get("mv") or ao.get("cp")
+                    ty = self.fn.locals[p["l"]]["s"] if p is not None else ""
+                    if ty.startswith("&mut") and not cn.startswith(PURE_PREFIXES):
+                        self.havoc_cell(st, (list(a.t)[0], ()), bb)
         self.write_place(st, t["dest"], res, bb)
 
 
 PURE_PREFIXES = ("core::fmt", "core::panicking")
+
+
+def _accessor(facts, cn):
+    """a workspace function that only reads through `&self` along one straight line (`fn end(&self) -> usize
+    { self.a + self.b }`): its result is a term over the receiver's fields"""
+    cache = facts.__dict__.setdefault("_aff_accessors", {})
+    if cn in cache:
+        return cache[cn]
+    g = None
+    for i, f in facts.fns.items():
+        if norm(i) == cn and f.crate not in ("ext", "promoted"):
+            g = f
+            break
+    ok = g is not None and g.argc >= 1 and g.locals[1].get("s", "").startswith("&") and not g.locals[1].get("s", "").startswith("&mut")
+    if ok:
+        for b in g.blocks:
+            if b["cleanup"]:
+                continue
+            k = b["term"]["k"]
+            if k not in ("goto", "assert", "return") and not (k == "call" and norm(b["term"]["callee"].get("res") or b["term"]["callee"].get("def") or "") in RING):
+                ok = False
+            for s in b["stmts"]:
+                if s["k"] == "assign" and s["lhs"]["p"] and s["lhs"]["p"][0] == "*":
+                    ok = False
+    cache[cn] = g if ok else None
+    return cache[cn]
+
+
+def _inline_accessor(self, st, cn, args):
+    g = _accessor(self.facts, cn)
+    if g is None or len(args) != g.argc:
+        return None
+    sub = PathExec(self.facts, g)
+    s2 = State()
+    s2.mem = dict(st.mem)
+    for i, a in enumerate(args):
+        if isinstance(a, Aff) and len(a.t) == 1 and a.c == 0 and list(a.t)[0].startswith("arg") and list(a.t.values())[0] == 1 and list(a.t)[0][3:].isdigit():
+            s2.loc[i + 1] = ("ref", (list(a.t)[0], ()))  # an opaque reference parameter of the caller: same cells
+        else:
+            s2.loc[i + 1] = a
+    path = [0]
+    seen = {0}
+    while True:
+        t = g.blocks[path[-1]]["term"]
+        nxt = t.get("target") if t["k"] in ("goto", "assert", "call") else None
+        if nxt is None or nxt in seen:
+            break
+        seen.add(nxt)
+        path.append(nxt)
+    if g.blocks[path[-1]]["term"]["k"] != "return":
+        return None
+    sub.run_path(path, s2)
+    rets = [e[2] for e in s2.events if e[0] == "return"]
+    if len(rets) == 1 and isinstance(rets[0], Aff):
+        return rets[0]
+    return None
+
+
+PathExec.inline_accessor = _inline_accessor
 
 
 def field(st, name, root="arg1"):
